@@ -103,38 +103,39 @@ func c14Templates() map[string][]gen.Node {
 		"block":             {&gen.NBlock{Name: "blk", Body: []gen.Node{tx("in block")}}},
 		"macro-and-call": {&gen.NMacro{Name: "mc", Params: []string{"p", "q", "r"}, Body: []gen.Node{pr(nm("p")), tx("/"), pr(nm("q"))}},
 			pr(&gen.EMethod{X: nm("_self"), Name: "mc", Args: []gen.Expr{num(1), str("two")}})},
-		"import":              {&gen.NImport{Tpl: str("lib"), Alias: "L"}, pr(&gen.EMethod{X: nm("L"), Name: "lm", Args: []gen.Expr{nm("s")}})},
-		"from":                {&gen.NFrom{Tpl: str("lib"), Names: [][2]string{{"lm", "renamed"}, {"lm2", "lm2"}}}, pr(&gen.ECall{Fn: "renamed", Args: []gen.Expr{num(5)}}), pr(&gen.ECall{Fn: "lm2"})},
-		"include":             {&gen.NInclude{Tpl: str("part"), With: &gen.EHash{Keys: []gen.Expr{nm("w")}, Vals: []gen.Expr{num(1)}}, Only: true}, &gen.NInclude{Tpl: bin("~", str("pa"), str("rt"))}, &gen.NInclude{Tpl: str("part"), Only: true}},
-		"embed":               {&gen.NEmbed{Tpl: str("lay"), With: &gen.EHash{Keys: []gen.Expr{nm("w")}, Vals: []gen.Expr{str("x")}}, Only: true, Blocks: []*gen.NBlock{{Name: "eb", Body: []gen.Node{tx("over")}}}}},
-		"do":                  {&gen.NDo{X: &gen.ECall{Fn: "fn", Args: []gen.Expr{num(1)}}}},
-		"verbatim":            {&gen.NVerbatim{S: "{{ raw }}{% if x %}y{% endif %}{{ 'unclosed"}},
-		"arithmetic":          e(bin("-", bin("+", num(1), bin("*", num(2), num(3))), bin("/", num(8), num(4)))),
-		"power-floor-mod":     e(bin("+", bin("**", num(2), num(3)), bin("%", bin("//", num(7), num(2)), num(2)))),
-		"concat-compare":      e(bin("==", bin("~", nm("s"), str("x")), str("abcx"))),
-		"logic-words":         e(bin("or", bin("and", nm("t"), &gen.EUn{Op: "not", X: nm("f")}), nm("f"))),
-		"not-paren":           e(&gen.EUn{Op: "not", X: &gen.EGroup{X: nm("f")}}),
-		"in-array":            e(bin("in", nm("n"), &gen.EArr{Els: []gen.Expr{num(1), num(3)}})),
-		"not-in-range":        e(bin("not in", num(5), &gen.EGroup{X: bin("..", num(1), num(3))})),
-		"starts-ends-matches": e(bin("and", bin("starts with", nm("s"), str("a")), bin("or", bin("ends with", nm("s"), str("c")), bin("matches", nm("s"), str("^a"))))),
-		"bitwise":             e(bin("b-or", bin("b-and", num(6), num(3)), bin("b-xor", num(1), num(8)))),
-		"unary-minus":         e(bin("+", &gen.EUn{Op: "-", X: nm("n")}, &gen.EUn{Op: "+", X: num(2)})),
-		"ternary-nested":      e(&gen.ETern{C: nm("f"), A: str("a"), B: &gen.ETern{C: nm("t"), A: str("b"), B: str("c")}}),
-		"test-args":           e(&gen.ETest{X: num(9), Test: "divisible by", Args: []gen.Expr{num(3)}}),
-		"test-not":            e(&gen.ETest{X: nm("n"), Not: true, Test: "pos"}),
-		"attr-chain":          e(&gen.EAttr{X: &gen.EAttr{X: nm("h"), Key: str("k"), Dot: true}, Key: num(0), Dot: false}),
-		"attr-bracket-string": e(&gen.EAttr{X: nm("h"), Key: str("k"), Dot: false}),
-		"filter-chain":        e(&gen.EFilter{X: &gen.EFilter{X: nm("s"), Name: "up"}, Name: "wrap", Args: []gen.Expr{num(1), str("a")}}),
-		"func-args":           e(&gen.ECall{Fn: "fn", Args: []gen.Expr{num(1), &gen.ECall{Fn: "fn"}, &gen.EArr{Els: []gen.Expr{num(2)}}}}),
-		"array-nested":        e(&gen.EAttr{X: &gen.EArr{Els: []gen.Expr{&gen.EArr{Els: []gen.Expr{num(1), num(2)}}, &gen.EArr{}}}, Key: num(0)}),
-		"hash-keys":           e(&gen.EAttr{X: &gen.EGroup{X: &gen.EHash{Keys: []gen.Expr{nm("bare"), str("quoted"), &gen.EGroup{X: nm("s")}}, Vals: []gen.Expr{num(1), num(2), num(3)}}}, Key: str("quoted"), Dot: true}),
-		"empty-lists":         e(bin("~", &gen.EFilter{X: &gen.EArr{}, Name: "wrap"}, &gen.ECall{Fn: "fn"})),
-		"interpolation":       e(&gen.EInterp{Parts: []gen.Expr{&gen.EStr{S: "a "}, bin("+", nm("n"), num(1)), &gen.EStr{S: " b "}, nm("s")}}),
-		"group":               e(bin("*", &gen.EGroup{X: bin("+", num(1), num(2))}, num(3))),
-		"strings":             e(bin("~", str("it"), bin("~", str("say \"hi\""), str("plain")))),
-		"method-call":         e(&gen.EMethod{X: nm("obj"), Name: "Concat", Args: []gen.Expr{str("a"), str("b")}}),
-		"number-forms":        e(bin("+", &gen.ENum{Text: "1.5"}, &gen.EAttr{X: nm("arr"), Key: num(0)})),
-		"is-then-op":          e(bin("and", &gen.ETest{X: nm("n"), Test: "pos"}, nm("t"))),
+		"import":                {&gen.NImport{Tpl: str("lib"), Alias: "L"}, pr(&gen.EMethod{X: nm("L"), Name: "lm", Args: []gen.Expr{nm("s")}})},
+		"from":                  {&gen.NFrom{Tpl: str("lib"), Names: [][2]string{{"lm", "renamed"}, {"lm2", "lm2"}}}, pr(&gen.ECall{Fn: "renamed", Args: []gen.Expr{num(5)}}), pr(&gen.ECall{Fn: "lm2"})},
+		"include":               {&gen.NInclude{Tpl: str("part"), With: &gen.EHash{Keys: []gen.Expr{nm("w")}, Vals: []gen.Expr{num(1)}}, Only: true}, &gen.NInclude{Tpl: bin("~", str("pa"), str("rt"))}, &gen.NInclude{Tpl: str("part"), Only: true}},
+		"embed":                 {&gen.NEmbed{Tpl: str("lay"), With: &gen.EHash{Keys: []gen.Expr{nm("w")}, Vals: []gen.Expr{str("x")}}, Only: true, Blocks: []*gen.NBlock{{Name: "eb", Body: []gen.Node{tx("over")}}}}},
+		"do":                    {&gen.NDo{X: &gen.ECall{Fn: "fn", Args: []gen.Expr{num(1)}}}},
+		"verbatim":              {&gen.NVerbatim{S: "{{ raw }}{% if x %}y{% endif %}{{ 'unclosed"}},
+		"arithmetic":            e(bin("-", bin("+", num(1), bin("*", num(2), num(3))), bin("/", num(8), num(4)))),
+		"power-floor-mod":       e(bin("+", bin("**", num(2), num(3)), bin("%", bin("//", num(7), num(2)), num(2)))),
+		"concat-compare":        e(bin("==", bin("~", nm("s"), str("x")), str("abcx"))),
+		"logic-words":           e(bin("or", bin("and", nm("t"), &gen.EUn{Op: "not", X: nm("f")}), nm("f"))),
+		"not-paren":             e(&gen.EUn{Op: "not", X: &gen.EGroup{X: nm("f")}}),
+		"in-array":              e(bin("in", nm("n"), &gen.EArr{Els: []gen.Expr{num(1), num(3)}})),
+		"not-in-range":          e(bin("not in", num(5), &gen.EGroup{X: bin("..", num(1), num(3))})),
+		"starts-ends-matches":   e(bin("and", bin("starts with", nm("s"), str("a")), bin("or", bin("ends with", nm("s"), str("c")), bin("matches", nm("s"), str("^a"))))),
+		"bitwise":               e(bin("b-or", bin("b-and", num(6), num(3)), bin("b-xor", num(1), num(8)))),
+		"unary-minus":           e(bin("+", &gen.EUn{Op: "-", X: nm("n")}, &gen.EUn{Op: "+", X: num(2)})),
+		"ternary-nested":        e(&gen.ETern{C: nm("f"), A: str("a"), B: &gen.ETern{C: nm("t"), A: str("b"), B: str("c")}}),
+		"test-args":             e(&gen.ETest{X: num(9), Test: "divisible by", Args: []gen.Expr{num(3)}}),
+		"test-not":              e(&gen.ETest{X: nm("n"), Not: true, Test: "pos"}),
+		"attr-chain":            e(&gen.EAttr{X: &gen.EAttr{X: nm("h"), Key: str("k"), Dot: true}, Key: num(0), Dot: false}),
+		"attr-bracket-string":   e(&gen.EAttr{X: nm("h"), Key: str("k"), Dot: false}),
+		"filter-chain":          e(&gen.EFilter{X: &gen.EFilter{X: nm("s"), Name: "up"}, Name: "wrap", Args: []gen.Expr{num(1), str("a")}}),
+		"func-args":             e(&gen.ECall{Fn: "fn", Args: []gen.Expr{num(1), &gen.ECall{Fn: "fn"}, &gen.EArr{Els: []gen.Expr{num(2)}}}}),
+		"array-nested":          e(&gen.EAttr{X: &gen.EArr{Els: []gen.Expr{&gen.EArr{Els: []gen.Expr{num(1), num(2)}}, &gen.EArr{}}}, Key: num(0)}),
+		"hash-keys":             e(&gen.EAttr{X: &gen.EGroup{X: &gen.EHash{Keys: []gen.Expr{nm("bare"), str("quoted"), &gen.EGroup{X: nm("s")}}, Vals: []gen.Expr{num(1), num(2), num(3)}}}, Key: str("quoted"), Dot: true}),
+		"empty-lists":           e(bin("~", &gen.EFilter{X: &gen.EArr{}, Name: "wrap"}, &gen.ECall{Fn: "fn"})),
+		"interpolation-strings": e(&gen.EInterp{Parts: []gen.Expr{&gen.EStr{S: "a "}, bin("~", &gen.EStr{S: "in"}, nm("s")), &gen.EStr{S: " b "}, &gen.EAttr{X: &gen.EGroup{X: &gen.EHash{Keys: []gen.Expr{&gen.EStr{S: "k"}}, Vals: []gen.Expr{&gen.EStr{S: "v"}}}}, Key: &gen.EStr{S: "k"}}}}),
+		"interpolation":         e(&gen.EInterp{Parts: []gen.Expr{&gen.EStr{S: "a "}, bin("+", nm("n"), num(1)), &gen.EStr{S: " b "}, nm("s")}}),
+		"group":                 e(bin("*", &gen.EGroup{X: bin("+", num(1), num(2))}, num(3))),
+		"strings":               e(bin("~", str("it"), bin("~", str("say \"hi\""), str("plain")))),
+		"method-call":           e(&gen.EMethod{X: nm("obj"), Name: "Concat", Args: []gen.Expr{str("a"), str("b")}}),
+		"number-forms":          e(bin("+", &gen.ENum{Text: "1.5"}, &gen.EAttr{X: nm("arr"), Key: num(0)})),
+		"is-then-op":            e(bin("and", &gen.ETest{X: nm("n"), Test: "pos"}, nm("t"))),
 	}
 	return m
 }
@@ -350,7 +351,7 @@ func (p *c14) Run(i int) (res fw.Result) {
 }
 
 func (p *c14) Rule() string {
-	return fmt.Sprintf("one template per tag kind and expression form (%d forms: if/elseif/else, for with key/cond/else, set, set-capture, filter section, block, macro+call, import, from with alias, include with/only/expression name, embed with/only/override, do, verbatim, extends+use with aliases, and 27 expression forms covering every operator family incl. the alphabetic ones, unary, nested conditional, tests with arguments, attribute/bracket access, filter chains, calls, nested arrays, hashes with bare/quoted/computed keys, empty lists, interpolation, groups, strings needing either quote), each placed at top level and inside a for, block, if and set-capture body after a text run (the push-back path). For each: exhaustive single-boundary sweep (every token boundary x 7 whitespace strings: none-where-tokens-cannot-merge, blank, TAB, LF, CRLF, CR, mixed run), pairwise sweep (7x7 values on boundary pairs: all pairs thorough, adjacent and sampled pairs quick), uniform spellings, and the quote / trailing-comma / trim-marker / combined variants; plus seeded random programs from the generator x random re-spellings. Oracle (metamorphic): the re-spelling renders the same bytes, the same error kind and the same callback log as the canonical spelling. Non-trivial = placement inside a nested body; enumerated variants are distinct by construction.", len(c14Templates())+1)
+	return fmt.Sprintf("one template per tag kind and expression form (%d forms: if/elseif/else, for with key/cond/else, set, set-capture, filter section, block, macro+call, import, from with alias, include with/only/expression name, embed with/only/override, do, verbatim, extends+use with aliases, and 27 expression forms covering every operator family incl. the alphabetic ones, unary, nested conditional, tests with arguments, attribute/bracket access, filter chains, calls, nested arrays, hashes with bare/quoted/computed keys, empty lists, interpolation (also with string literals inside the interpolated expressions), groups, strings needing either quote), each placed at top level and inside a for, block, if and set-capture body after a text run (the push-back path). For each: exhaustive single-boundary sweep (every token boundary x 7 whitespace strings: none-where-tokens-cannot-merge, blank, TAB, LF, CRLF, CR, mixed run), pairwise sweep (7x7 values on boundary pairs: all pairs thorough, adjacent and sampled pairs quick), uniform spellings, and the quote / trailing-comma / trim-marker / combined variants; plus seeded random programs from the generator x random re-spellings. Oracle (metamorphic): the re-spelling renders the same bytes, the same error kind and the same callback log as the canonical spelling. Non-trivial = placement inside a nested body; enumerated variants are distinct by construction.", len(c14Templates())+1)
 }
 
 func (p *c14) Assumptions() []string {
